@@ -84,10 +84,10 @@ def notif_of(frames):
     return [(b[0], b[1]) for _, t, b in frames if t == rc.NOTIFICATION and len(b) >= 2]
 
 
-def marked_update(i, malformed=False):
+def marked_update(i, malformed=False, asn4=True):
     """A small UPDATE whose announced prefix identifies it (10.<i/256>.<i%256>.0/24)."""
     pfx = '10.%d.%d.0/24' % ((i >> 8) & 0xFF, i & 0xFF)
-    attrs = rc.a_origin(5 if malformed else 0) + rc.a_as_path([(2, [65002])], True) + rc.a_next_hop('10.0.0.2')
+    attrs = rc.a_origin(5 if malformed else 0) + rc.a_as_path([(2, [65002])], asn4) + rc.a_next_hop('10.0.0.2')
     return rc.update(attrs=attrs, nlri=rc.prefix4(pfx)), pfx
 
 
